@@ -1,4 +1,5 @@
 import logging
+import reprlib
 import struct
 from io import BytesIO
 from typing import (
@@ -991,7 +992,7 @@ class PDFFont:
         bbox = safe_rect_list(font_bbox)
         if bbox is None:
             log.warning(
-                f"Could get FontBBox from font descriptor because {font_bbox!r} cannot be parsed as 4 floats"
+                f"Could get FontBBox from font descriptor because {reprlib.repr(font_bbox)} cannot be parsed as 4 floats"
             )
             return 0.0, 0.0, 0.0, 0.0
         return bbox
